@@ -27,19 +27,19 @@
    matching-rules bitmap are single host calls; pattern ids are the indexes
    of the patterns in the rule. *)
 From Coq Require Import List ZArith Bool Lia.
-From YV Require Import Cond.Syntax Cond.Sem Cond.Quirks Cond.Machine.
+From YV Require Import Cond.Syntax Cond.Sem Cond.Quirks Cond.Machine Gen.EmitFacts.
 Import ListNotations.
 Local Open Scope Z_scope.
 
-(* lib/src/wasm/mod.rs, lib/src/compiler/context.rs (re-checked against the
-   source by translate/gen_emit.py -> Gen/EmitFacts.v, see EmitProofs.v) *)
-Definition MAX_VARS : Z := 2048.
-Definition VARS_STACK_START : Z := MAX_VARS / 8.
-Definition FLAG_WORD_BYTES : Z := 8.
-Definition VAR_SLOT_BYTES : Z := 8.
-Definition SHIFT_LIMIT : Z := 64.
-Definition FOR_IN_FRAME : nat := 7.
-Definition OF_FRAME : nat := 5.
+(* constants and shapes read from lib/src/compiler/emit.rs, lib/src/wasm/mod.rs and
+   lib/src/compiler/context.rs by translate/gen_emit.py on every run (Gen/EmitFacts.v) *)
+Definition MAX_VARS : Z := EmitFacts.max_vars.
+Definition VARS_STACK_START : Z := EmitFacts.vars_stack_start.
+Definition FLAG_WORD_BYTES : Z := EmitFacts.flag_word_bytes.
+Definition VAR_SLOT_BYTES : Z := EmitFacts.var_slot_bytes.
+Definition SHIFT_LIMIT : Z := EmitFacts.shift_guard_const.
+Definition FOR_IN_FRAME : nat := EmitFacts.for_in_frame_size.
+Definition OF_FRAME : nat := EmitFacts.of_frame_size.
 
 Definition tmpA : nat := 0.
 Definition tmpB : nat := 1.
@@ -68,6 +68,26 @@ Fixpoint insert_id (x : nat) (l : list nat) : list nat :=
   | y :: t => if Nat.leb x y then x :: l else y :: insert_id x t
   end.
 Definition sort_ids (l : list nat) : list nat := fold_right insert_id [] l.
+(* the code after the two operands of << >> (the guard), of \ and of % *)
+Definition shift_tail (op : arith) : list instr :=
+  [ILocalSet tmpB; ILocalSet tmpA; ILocalGet tmpB; IConst (V64 SHIFT_LIMIT); IBin EmitFacts.shift_guard_cmp;
+   IIf 1 [ILocalGet tmpA; ILocalGet tmpB; IBin (arith_op op)] [IConst (V64 EmitFacts.shift_guard_else)]].
+Definition div_tail (h : handler) : list instr :=
+  (if EmitFacts.div_zero_guard then throw_if_zero h else []) ++
+  (if EmitFacts.div_minus_one_branch then
+     [ILocalSet tmpB; ILocalSet tmpA; ILocalGet tmpB; IConst (V64 (-1)); IBin I64Eq;
+      IIf 1 [IConst (V64 0); ILocalGet tmpA; IBin I64Sub] [ILocalGet tmpA; ILocalGet tmpB; IBin I64DivS]]
+   else [IBin I64DivS]).
+Definition mod_tail (h : handler) : list instr :=
+  (if EmitFacts.mod_zero_guard then throw_if_zero h else []) ++ [IBin I64RemS].
+
+(* emit_for: one branch of the none / all / any arms *)
+Definition for_branch (repeats : bool) (value : Z) (repeat_code : list instr) : list instr :=
+  (if repeats then repeat_code else []) ++ [IConst (V32 value); IBr 2].
+Definition for_arm (a : bool * Z * bool * Z) (repeat_code : list instr) : list instr :=
+  let '(r1, v1, r2, v2) := a in
+  [IIf 1 (for_branch r1 v1 repeat_code) (for_branch r2 v2 repeat_code)].
+
 (* consecutive runs of a sorted list of ids: (first, last) *)
 Fixpoint runs_from (first last : nat) (l : list nat) : list (nat * nat) :=
   match l with
@@ -157,11 +177,12 @@ Definition throw_if_zero (h : handler) : list instr :=
 
 (* emit_lazy_call_to_search_for_patterns *)
 Definition search_check : list instr :=
-  [IGlobalGet GSearchDone; IIf 0 [] [ICall HSearch]].
+  if EmitFacts.search_check_unconditional && EmitFacts.search_check_before_every_pattern_op
+  then [IGlobalGet GSearchDone; IIf 0 [] [ICall HSearch]] else [].
 
 (* ------------------------------------------------------------------ variables *)
-Definition flag_addr (slot : nat) : Z := (Z.of_nat slot / 64) * FLAG_WORD_BYTES.
-Definition flag_bit (slot : nat) : Z := w64 (2 ^ (Z.of_nat slot mod 64)).
+Definition flag_addr (slot : nat) : Z := (Z.of_nat slot / EmitFacts.flag_index_div) * FLAG_WORD_BYTES.
+Definition flag_bit (slot : nat) : Z := w64 (2 ^ (Z.of_nat slot mod EmitFacts.flag_index_rem)).
 Definition slot_addr (slot : nat) : Z := Z.of_nat slot * VAR_SLOT_BYTES.
 Definition width_of (t : ty) : width := match t with TBool => W32 | TInt => W64 end.
 
@@ -247,15 +268,9 @@ Section Emit.
     | EBitNot a => emit g sp h a ++ [IConst (V64 (-1)); IBin I64Xor]
     | EArith op a b =>
         match op with
-        | Shl | Shr =>
-            emit g sp h a ++ emit g sp h b ++
-            [ILocalSet tmpB; ILocalSet tmpA; ILocalGet tmpB; IConst (V64 SHIFT_LIMIT); IBin I64LtS;
-             IIf 1 [ILocalGet tmpA; ILocalGet tmpB; IBin (arith_op op)] [IConst (V64 0)]]
-        | Div =>
-            emit g sp h a ++ emit g sp h b ++ throw_if_zero h ++
-            [ILocalSet tmpB; ILocalSet tmpA; ILocalGet tmpB; IConst (V64 (-1)); IBin I64Eq;
-             IIf 1 [IConst (V64 0); ILocalGet tmpA; IBin I64Sub] [ILocalGet tmpA; ILocalGet tmpB; IBin I64DivS]]
-        | Mod => emit g sp h a ++ emit g sp h b ++ throw_if_zero h ++ [IBin I64RemS]
+        | Shl | Shr => emit g sp h a ++ emit g sp h b ++ shift_tail op
+        | Div => emit g sp h a ++ emit g sp h b ++ div_tail h
+        | Mod => emit g sp h a ++ emit g sp h b ++ mod_tail h
         | _ => emit g sp h a ++ emit g sp h b ++ [IBin (arith_op op)]
         end
     | ECmp op a b =>
@@ -332,8 +347,8 @@ Section Emit.
                                  (incr_i_and_repeat h3 1%nat ++ [IConst (V32 0); IBr 2])]
                       | _ =>
                           [IIf 0
-                             (incr_var cnt h3 ++ load_var cnt TInt h3 ++ load_var maxc TInt h3 ++ [IBin I64GeS;
-                              IIf 0 (load_var maxc TInt (deeper h3) ++ [IConst (V64 0); IBin I64Ne; IBr 3]) []])
+                             (incr_var cnt h3 ++ load_var cnt TInt h3 ++ load_var maxc TInt h3 ++ [IBin EmitFacts.for_expr_reached;
+                              IIf 0 (load_var maxc TInt (deeper h3) ++ [IConst (V64 0); IBin EmitFacts.for_expr_exit_value; IBr 3]) []])
                              []]
                           ++ incr_i_and_repeat h2 0%nat
                           ++ load_var maxc TInt h2 ++ [IUn I64Eqz]
